@@ -41,6 +41,9 @@ def swt_model(rep, tier, fix=True):
 
 def run(rep):
     if rep.tier == "thorough":
+        from .. import proofs
+        proofs.attach(rep, "SWTProofs")      # TLAPS: the scalar index layer of this family for ALL sizes
+    if rep.tier == "thorough":
         from .. import apalache
         apalache.shape_lemmas(rep)
     dwtlib.f64()
